@@ -141,6 +141,8 @@ type task struct {
 	xferVal   any
 	xferReady bool
 	condWake  bool
+	selCases  []SelCase
+	selForced int
 	stall     int // scheduling decisions this task still sits out (if others can run)
 }
 
@@ -351,7 +353,7 @@ func Run(cfg Config, root func()) *Result {
 }
 
 func (s *Sim) spawn(name string, f func(), parent *task) *task {
-	t := &task{id: len(s.tasks), name: name, wake: make(chan struct{}, 1), fn: f}
+	t := &task{id: len(s.tasks), name: name, wake: make(chan struct{}, 1), fn: f, selForced: -1}
 	if name == "" {
 		t.name = fmt.Sprintf("go#%d", t.id)
 		t.key = uint64(t.id)
